@@ -1129,6 +1129,9 @@ class Interp:
                         break
                 return None
             if ck in ('LValueToRValue',):
+                c0 = f.s(st['ch'][0])
+                if c0 is not None and c0['k'] == 'DeclRefExpr' and c0.get('n') == 'npos' and 'basic_string' in (c0.get('q') or '') and c0.get('d') not in env:
+                    return NPOS         # std::string::npos
                 return self.read(f, st, self.lv(f, st['ch'][0], env), env)
             v = self.ev(f, st['ch'][0], env)
             if ck in ('IntegralToBoolean', 'PointerToBoolean'):
@@ -1151,6 +1154,8 @@ class Interp:
                     return st['cv']         # a constant the compiler has folded (constexpr / const integral global)
                 if ('g:' + st['n']) in self.mem:
                     return P('g:' + st['n'], 0)
+                if st.get('n') == 'npos' and 'basic_string' in (st.get('q') or ''):
+                    return NPOS         # std::string::npos
                 if (st.get('q') or '').startswith('std::placeholders::_'):
                     return ('ph', int(st['q'].rsplit('_', 1)[1]))
                 if st.get('gl') and st.get('q') in self.globals:
